@@ -65,6 +65,7 @@ type c16World struct {
 	cancel   context.CancelFunc
 	ctl      *k8s.SecretController
 	caFile   string
+	caFile2  string
 	mini     *miniredis.Miniredis
 	answers  map[string][]byte
 	n        int
@@ -138,6 +139,12 @@ func newC16World(o c16Opts) *c16World {
 			ConfigurationUri:   "http://" + host2 + "/.well-known/openid-configuration",
 			ClientSecretConfig: &oidcv1.OIDCConfig_ClientSecret{ClientSecret: "secret-b"},
 		}
+		if o.CAFile {
+			// the second provider has a CA file (and a watcher) of its own
+			w.caFile2 = c20TempFile(world.CA2.PEM)
+			oc2.TrustedCaConfig = &oidcv1.OIDCConfig_TrustedCertificateAuthorityFile{TrustedCertificateAuthorityFile: w.caFile2}
+			oc2.TrustedCertificateAuthorityRefreshInterval = durationpb.New(time.Second)
+		}
 		w.cfg.Chains = append([]*configv1.FilterChain{{Name: "b", Match: &configv1.Match{Header: "x-tenant", Criteria: &configv1.Match_Equality{Equality: "b"}},
 			Filters: []*configv1.Filter{{Type: &configv1.Filter_Oidc{Oidc: oc2}}}}}, w.cfg.Chains...)
 		hosts[host2] = world.CannedIdP("http://"+host2, w.answers)
@@ -174,6 +181,10 @@ func newC16World(o c16Opts) *c16World {
 	// channel orders ServeContext's start-up reads of the configuration before everything the threads do
 	_, _ = jwks.Get(context.Background(), &oidcv1.OIDCConfig{JwksConfig: &oidcv1.OIDCConfig_JwksFetcher{
 		JwksFetcher: &oidcv1.OIDCConfig_JwksFetcherConfig{JwksUri: "http://startup.idp.test/jwks"}}})
+	if o.CAFile && o.TwoProviders {
+		// provider a has been in use (its TLS settings are loaded and its CA file is watched) before the threads start
+		_, _ = w.filter.Check(context.Background(), w.prepare("nocookie", 99))
+	}
 	return w
 }
 
@@ -181,6 +192,9 @@ func (w *c16World) Close() {
 	w.cancel()
 	if w.caFile != "" {
 		os.Remove(w.caFile)
+	}
+	if w.caFile2 != "" {
+		os.Remove(w.caFile2)
 	}
 	if w.mini != nil {
 		w.mini.Close()
@@ -501,6 +515,7 @@ func c16Scenarios(tier string) []schedx.Scenario {
 			c16Scenario("S3 secret rotation: refresh||reconcile", c16Opts{SecretRef: true}, []string{"refresh", "reconcile"}, b),
 			c16Scenario("S4 CA file: callback||rotate", c16Opts{CAFile: true}, []string{"callback", "rotate"}, b),
 			c16Scenario("S4 CA file: callback||nocookie", c16Opts{CAFile: true}, []string{"callback", "nocookie"}, b),
+			c16Scenario("S4 two CA files: rotate(a)||first use of b", c16Opts{CAFile: true, TwoProviders: true, Discovery: true}, []string{"rotate", "nocookie-b"}, b),
 			c16Scenario("S5 jwks fetcher first use: callback||callback", c16Opts{JWKSFetch: true}, []string{"callback", "callback"}, b),
 			c16Scenario("S7 proxy: callback||refresh", c16Opts{Proxy: true}, []string{"callback", "refresh"}, b),
 			c16Scenario("S6 redis: callback||callback", c16Opts{Redis: true, Logout: true}, []string{"callback", "callback"}, b),
@@ -577,7 +592,14 @@ func c16Run(run *ev.Run) {
 		cmd.Env = append(os.Environ(), "VERIF_C16_CHILD="+scs[i].Name, "VERIF_C16_OUT="+out,
 			fmt.Sprintf("GORACE=halt_on_error=0 exitcode=0 history_size=5 log_path=%s/race-child-%d", scratch, i),
 			fmt.Sprintf("VERIF_BUDGET_S=%d", min(int(time.Until(run.Deadline).Seconds())-20, 420)))
+		// (a worker that hangs for a reason the watchdog does not see is killed a minute after its own budget)
+		killer := time.AfterFunc(time.Duration(min(int(time.Until(run.Deadline).Seconds())-20, 420)+60)*time.Second, func() {
+			if cmd.Process != nil {
+				_ = cmd.Process.Kill()
+			}
+		})
 		b, err := cmd.CombinedOutput()
+		killer.Stop()
 		res := &c16ChildResult{Scenario: scs[i].Name}
 		if data, rerr := os.ReadFile(out); rerr == nil {
 			_ = json.Unmarshal(data, res)
@@ -640,6 +662,20 @@ func c16Child(run *ev.Run, name string) {
 	res := &c16ChildResult{Scenario: name}
 	run.Collector = func(sig, msg string, replay any) {
 		res.Violations = append(res.Violations, c16ChildViolation{sig, msg, replay})
+	}
+	// a lock wait that can never end (a managed thread waiting for a lock held by a goroutine the repository started
+	// itself, which in turn waits for a lock of that thread) would hang the worker: the watchdog reports it instead
+	vsched.OnRealDeadlock = func(info string) {
+		first := info
+		if i := strings.Index(first, ";"); i > 0 {
+			first = first[:i]
+		}
+		res.Violations = append(res.Violations, c16ChildViolation{"C16 deadlock (lock wait that cannot end) scenario=" + name,
+			"the execution stopped for good: " + info, map[string]any{"scenario": name, "kind": "real-deadlock"}})
+		res.Complete = false
+		b, _ := json.Marshal(res)
+		_ = os.WriteFile(os.Getenv("VERIF_C16_OUT"), b, 0o644)
+		os.Exit(0)
 	}
 	found := false
 	for _, sc := range c16Scenarios(run.Tier) {
